@@ -444,6 +444,7 @@ class Prelude:
             patterns=[mapeq(m, m2)]))
         # a dict is its contents (value semantics): extensionally equal maps are the same value
         A(f"{n}.ext_eq", z3.ForAll([m, m2], z3.Implies(mapeq(m, m2), m == m2), patterns=[mapeq(m, m2)]))
+        A(f"{n}.eq_refl", z3.ForAll([m], mapeq(m, m), patterns=[mapeq(m, m)]))
 
     # --------------------------------------------------------------- records
     def field(self, rec: RecTy, fname: str) -> tuple[str, z3.SortRef]:
